@@ -1,60 +1,105 @@
 (** C03 — every reaction proposed by rule application is a genuine instance of the rule.
     Statements only; every proof is [exact <lemma of proof/C03_*.v>].
 
-    Vocabulary (model/C03_Model.v unless said otherwise): [glue host rc m] = SynReactor._glue_graph on one match
-    ([None] = no ITS is produced); [match_rcb host rc m] / [wf_hostb] / [wf_rcb] = the boolean hypotheses, all three
-    evaluated by [run_c03] on every glued mapping of every correspondence case; [adj] = bond lookup (unordered pair);
-    [bondG T a b] = reactant-side bond of an ITS ([None] when order_G = 0); [lift o] = (o, o, 0);
-    [find_hit m es a b] = the template edge mapped by [m] onto the host pair {a, b}; [sumZ w T] = sum of [w] over the
-    nodes of [T]; [dH] / [dQ] = product-minus-reactant hydrogen count / charge of one ITS node (proof/C03_Proof.v). *)
+    Vocabulary.  model/C03_Model.v: [glue host rc m] = SynReactor._glue_graph on one match ([None] = no ITS is
+    produced); [its_decompose] = the reactant / product molecule graphs that _to_smarts serialises;
+    [invert_template] = SynReactor._invert_template; [synrule] = SynRule.__init__; [explicit_h] = SynReactor._explicit_h;
+    [match_rcb host rc m], [wf_hostb], [wf_rcb] = the boolean hypotheses (the match is an injective map of the rule's
+    atoms onto host atoms with equal element and charge, enough hydrogens and equal reactant-side bond orders; node ids
+    distinct, one entry per unordered atom pair, no loops, host orders > 0, rule orders >= 0) — all three are evaluated
+    by [run_c03] on every glued mapping of every correspondence case; [adj] = bond lookup on an unordered pair;
+    [peq a b u v] = {a,b} = {u,v}.  Orders are in half-units (1.0 = 2).
+    proof/C03_Spec.v: [mol_of_host] (the substrate as a molecule graph), [lift o] = (o, o, 0) (an unchanged bond),
+    [bondG] (reactant-side bond of an ITS), [dH] / [dQ] (product-minus-reactant hydrogen count / charge of an ITS
+    node), [sumZ] (sum over nodes), [balancedb], [count_el], [total_hc], [total_charge], [elem_count] (atoms of an
+    element plus, for hydrogen, the implicit hydrogens). *)
 From Coq Require Import List NArith ZArith Bool.
-From SK Require Import lib.Tok lib.LGraph model.C03_Model proof.C03_Proof.
+From SK Require Import lib.Tok lib.LGraph model.C03_Model proof.C03_Spec proof.C03_Proof proof.C03_Glue proof.C03_Backward.
 Import ListNotations.
 Local Open Scope Z_scope.
 
-(** (a) the substrate, unchanged, is the reactant side of the glued ITS: same atoms, every reactant tuple is the
-    host's tuple, the reactant-side bonds are exactly the host bonds *)
+(** ** (a) the substrate, unchanged, is the reactant side *)
+
+(** the reactant molecule graph of the glued ITS has the substrate's atoms (same ids, same order, same element,
+    aromaticity, hydrogen count, charge) and exactly the substrate's bonds *)
 Theorem C03_left_is_host : forall (host : hostg) (rc : its) (m : mapping) (T : its),
+  wf_hostb host = true -> wf_rcb rc = true -> match_rcb host rc m = true -> glue host rc m = Some T ->
+  gnodes (fst (its_decompose T)) = gnodes (mol_of_host host) /\
+  (forall a b : N, adj (fst (its_decompose T)) a b = adj host a b).
+Proof. exact left_is_host_dec. Qed.
+Print Assumptions C03_left_is_host.
+
+(** the same on the ITS itself: every reactant tuple (including 'neighbors') is the host's tuple *)
+Theorem C03_left_tuples : forall (host : hostg) (rc : its) (m : mapping) (T : its),
   wf_hostb host = true -> wf_rcb rc = true -> match_rcb host rc m = true -> glue host rc m = Some T ->
   node_ids T = node_ids host /\
   (forall n : N, option_map iG (label T n) = label host n) /\
   (forall a b : N, bondG T a b = adj host a b).
 Proof. exact left_is_host. Qed.
-Print Assumptions C03_left_is_host.
+Print Assumptions C03_left_tuples.
 
-(** (b) the glued ITS changes the total hydrogen count and the total charge by exactly what the template changes
-    them, and never changes an element *)
-Theorem C03_conserve_sums : forall (host : hostg) (rc : its) (m : mapping) (T : its),
+(** ** (b) conservation *)
+
+(** a balanced rule yields a balanced reaction: every element count (hydrogen: explicit atoms + implicit counts)
+    and the total charge agree on the two sides *)
+Theorem C03_conserve : forall (host : hostg) (rc : its) (m : mapping) (T : its),
   wf_hostb host = true -> wf_rcb rc = true -> match_rcb host rc m = true -> glue host rc m = Some T ->
-  sumZ dH T = sumZ dH rc /\ sumZ dQ T = sumZ dQ rc /\
-  (forall (n : N) (a : inode), label T n = Some a -> a_el (iH a) = a_el (iG a)).
-Proof. exact conserve. Qed.
-Print Assumptions C03_conserve_sums.
+  balancedb rc = true ->
+  (forall e : N, elem_count e (fst (its_decompose T)) = elem_count e (snd (its_decompose T))) /\
+  total_charge (fst (its_decompose T)) = total_charge (snd (its_decompose T)).
+Proof. exact conserve_balanced. Qed.
+Print Assumptions C03_conserve.
 
-(** (c) no other bond of the substrate is altered *)
+(** in general: atoms never change element, and the reaction gains exactly the hydrogens / charge the rule gains *)
+Theorem C03_imbalance_exact : forall (host : hostg) (rc : its) (m : mapping) (T : its),
+  wf_hostb host = true -> wf_rcb rc = true -> match_rcb host rc m = true -> glue host rc m = Some T ->
+  (forall e : N, count_el e (fst (its_decompose T)) = count_el e (snd (its_decompose T))) /\
+  total_hc (snd (its_decompose T)) - total_hc (fst (its_decompose T)) = sumZ dH rc /\
+  total_charge (snd (its_decompose T)) - total_charge (fst (its_decompose T)) = sumZ dQ rc.
+Proof. exact conserve_counts. Qed.
+Print Assumptions C03_imbalance_exact.
+
+(** ** (c) the result differs from the substrate by exactly the template's changes *)
+
+(** bonds: the match is injective; every template bond has an image bond whose order changes by the template's amount;
+    every changed bond of the result is such an image (same amount); every other atom pair is bonded as in the host *)
+Theorem C03_changes_exact : forall (host : hostg) (rc : its) (m : mapping) (T : its),
+  wf_rcb rc = true -> match_rcb host rc m = true -> glue host rc m = Some T ->
+  NoDup (map snd m) /\
+  (forall (u v : N) (x : iedge), In (u, v, x) (gedges rc) ->
+     exists (hu hv : N) (y : iedge),
+       mget m u = Some hu /\ mget m v = Some hv /\ adj T hu hv = Some y /\ eH y - eG y = eH x - eG x) /\
+  (forall (a b : N) (y : iedge), adj T a b = Some y -> eG y <> eH y ->
+     exists (u v : N) (x : iedge) (hu hv : N),
+       In (u, v, x) (gedges rc) /\ mget m u = Some hu /\ mget m v = Some hv /\ peq hu hv a b = true /\
+       eH y - eG y = eH x - eG x) /\
+  (forall a b : N,
+     (forall (u v : N) (x : iedge) (hu hv : N),
+        In (u, v, x) (gedges rc) -> mget m u = Some hu -> mget m v = Some hv -> peq hu hv a b = false) ->
+     adj T a b = option_map lift (adj host a b)).
+Proof. exact changes_exact. Qed.
+Print Assumptions C03_changes_exact.
+
+(** no other bond of the substrate is altered (the last clause on its own) *)
 Theorem C03_unchanged_elsewhere : forall (host : hostg) (rc : its) (m : mapping) (T : its),
   wf_rcb rc = true -> match_rcb host rc m = true -> glue host rc m = Some T ->
-  forall a b : N, find_hit m (gedges rc) a b = None -> adj T a b = option_map lift (adj host a b).
-Proof. exact unchanged_elsewhere. Qed.
+  forall a b : N,
+  (forall (u v : N) (x : iedge) (hu hv : N),
+     In (u, v, x) (gedges rc) -> mget m u = Some hu -> mget m v = Some hv -> peq hu hv a b = false) ->
+  adj T a b = option_map lift (adj host a b).
+Proof. exact unchanged_elsewhere_explicit. Qed.
 Print Assumptions C03_unchanged_elsewhere.
 
-(** (c) every template edge has an image bond in the result whose order changes by the template's amount *)
-Theorem C03_changes_image : forall (host : hostg) (rc : its) (m : mapping) (T : its),
+(** end atoms: a matched atom carries the template atom's element, its hydrogen-count change and its charges;
+    an atom outside the match does not change at all *)
+Theorem C03_changed_atoms : forall (host : hostg) (rc : its) (m : mapping) (T : its),
   wf_rcb rc = true -> match_rcb host rc m = true -> glue host rc m = Some T ->
-  forall (u v : N) (x : iedge), In (u, v, x) (gedges rc) ->
-  exists (hu hv : N) (y : iedge),
-    mget m u = Some hu /\ mget m v = Some hv /\ adj T hu hv = Some y /\ eH y - eG y = eH x - eG x.
-Proof. exact changes_image. Qed.
-Print Assumptions C03_changes_image.
-
-(** (c) conversely every changed bond of the result is the image of a template edge, with the same change *)
-Theorem C03_changes_only : forall (host : hostg) (rc : its) (m : mapping) (T : its),
-  wf_rcb rc = true -> match_rcb host rc m = true -> glue host rc m = Some T ->
-  forall (a b : N) (y : iedge), adj T a b = Some y -> eG y <> eH y ->
-  exists (u v : N) (x : iedge),
-    In (u, v, x) (gedges rc) /\ hits m (u, v, x) a b = true /\ eH y - eG y = eH x - eG x.
-Proof. exact changes_only. Qed.
-Print Assumptions C03_changes_only.
+  (forall (p : N) (pn : inode) (h : N), In (p, pn) (gnodes rc) -> mget m p = Some h ->
+     exists a : inode, label T h = Some a /\ a_el (iG a) = a_el (iG pn) /\ a_el (iH a) = a_el (iG pn) /\ dH a = dH pn /\
+                       a_ch (iG a) = a_ch (iG pn) /\ a_ch (iH a) = a_ch (iH pn)) /\
+  (forall (h : N) (a : inode), ~ In h (map snd m) -> label T h = Some a -> iH a = iG a).
+Proof. exact glued_atoms. Qed.
+Print Assumptions C03_changed_atoms.
 
 (** the additive branch exactly (after fb58253): a template edge that forms a bond over an existing host bond adds
     its order to the host's, and an ITS is produced only when the sum is an integral bond order (even in half-units) *)
@@ -66,6 +111,16 @@ Theorem C03_additive : forall (host : hostg) (rc : its) (m : mapping) (T : its),
 Proof. exact additive. Qed.
 Print Assumptions C03_additive.
 
+(** ... and that is the ONLY way a valid match proposes no reaction *)
+Theorem C03_additive_none_iff : forall (host : hostg) (rc : its) (m : mapping),
+  wf_rcb rc = true -> match_rcb host rc m = true ->
+  (glue host rc m = None <->
+   exists (u v : N) (x : iedge) (hu hv : N) (o : Z),
+     In (u, v, x) (gedges rc) /\ eG x = 0 /\ mget m u = Some hu /\ mget m v = Some hv /\
+     adj host hu hv = Some o /\ Z.odd (o + eH x) = true).
+Proof. exact glue_none_iff. Qed.
+Print Assumptions C03_additive_none_iff.
+
 (** standard_order stays order_G - order_H on every bond of the result *)
 Theorem C03_std_consistent : forall (host : hostg) (rc : its) (m : mapping) (T : its),
   wf_rcb rc = true -> match_rcb host rc m = true -> glue host rc m = Some T ->
@@ -73,3 +128,37 @@ Theorem C03_std_consistent : forall (host : hostg) (rc : its) (m : mapping) (T :
   forall (a b : N) (y : iedge), adj T a b = Some y -> eS y = eG y - eH y.
 Proof. exact std_consistent_glue. Qed.
 Print Assumptions C03_std_consistent.
+
+(** ** backward application *)
+
+(** _invert_template swaps the sides of the template (literally), keeps it balanced and well-formed; gluing it on a
+    substrate gives an ITS whose reactant side is the substrate (smarts_list then reverses the string: the substrate
+    is the product side of the proposed reaction) and whose changed bonds are the images of the ORIGINAL template's
+    bonds with the opposite order change *)
+Theorem C03_backward : forall (host : hostg) (tpl : its) (m : mapping) (T : its),
+  wf_hostb host = true -> wf_rcb tpl = true ->
+  match_rcb host (invert_template tpl) m = true -> glue host (invert_template tpl) m = Some T ->
+  its_decompose (invert_template tpl) = (snd (its_decompose tpl), fst (its_decompose tpl)) /\
+  balancedb (invert_template tpl) = balancedb tpl /\
+  (gnodes (fst (its_decompose T)) = gnodes (mol_of_host host) /\
+   forall a b : N, adj (fst (its_decompose T)) a b = adj host a b) /\
+  (forall (u v : N) (x : iedge), In (u, v, x) (gedges tpl) -> 0 < eG x \/ 0 < eH x ->
+     exists (hu hv : N) (y : iedge),
+       mget m u = Some hu /\ mget m v = Some hv /\ adj T hu hv = Some y /\ eH y - eG y = - (eH x - eG x)) /\
+  (forall (a b : N) (y : iedge), adj T a b = Some y -> eG y <> eH y ->
+     exists (u v : N) (x : iedge) (hu hv : N),
+       In (u, v, x) (gedges tpl) /\ mget m u = Some hu /\ mget m v = Some hv /\ peq hu hv a b = true /\
+       eH y - eG y = - (eH x - eG x)).
+Proof. exact backward. Qed.
+Print Assumptions C03_backward.
+
+Theorem C03_backward_wf : forall tpl : its, wf_rcb tpl = true -> wf_rcb (invert_template tpl) = true.
+Proof. exact invert_wf. Qed.
+Print Assumptions C03_backward_wf.
+
+(** ** which rule is glued: in implicit-template mode SynRule.__init__ hands the template itself (and its two
+    sides) to the reactor, so the [rc] of the theorems above IS the (possibly inverted) template *)
+Theorem C03_synrule_implicit : forall tpl : its, nodupb (node_ids tpl) = true ->
+  synrule tpl false = Some (tpl, fst (its_decompose tpl), snd (its_decompose tpl)).
+Proof. exact synrule_implicit. Qed.
+Print Assumptions C03_synrule_implicit.
